@@ -60,6 +60,13 @@ pub enum Op {
         order: Vec<usize>,
         /// pass the files through a std `HashMap` first, like the CLI
         via_hashmap: bool,
+        /// indices of files that are handed over a second time (same path, same content),
+        /// as an editor integration re-inserting a file does
+        #[serde(default, skip_serializing_if = "Vec::is_empty")]
+        dups: Vec<usize>,
+        /// build the tree with `SourceTree::new` for the first file and `insert` for the rest
+        #[serde(default, skip_serializing_if = "std::ops::Not::not")]
+        via_insert: bool,
         main_path: Vec<String>,
         opts: Opts,
     },
@@ -354,6 +361,8 @@ fn do_op(op: &Op) -> Obs {
             files,
             order,
             via_hashmap,
+            dups,
+            via_insert,
             main_path,
             opts,
         } => {
@@ -363,9 +372,18 @@ fn do_op(op: &Op) -> Obs {
             };
             let ordered = order
                 .iter()
+                .chain(dups.iter())
                 .map(|&i| (PathBuf::from(&files[i].0), files[i].1.clone()));
             let root = Some(PathBuf::from("/project"));
-            let tree = if *via_hashmap {
+            let tree = if *via_insert {
+                let mut it = ordered;
+                let first: Vec<(PathBuf, String)> = it.by_ref().take(1).collect();
+                let mut t = prqlc::SourceTree::new(first, root);
+                for (p, c) in it {
+                    t.insert(p, c);
+                }
+                t
+            } else if *via_hashmap {
                 // what cli::read_files does: collect into a HashMap, then enumerate it
                 let m: std::collections::HashMap<PathBuf, String> = ordered.collect();
                 prqlc::SourceTree::new(m, root)
